@@ -10,6 +10,9 @@ import (
 	"os"
 	"strconv"
 	"sync"
+	"sync/atomic"
+
+	"verif/harness/watch"
 )
 
 type M = map[string]interface{}
@@ -36,6 +39,13 @@ func Create(path string) *Writer {
 func (t *Writer) Begin(sig string, hdr M) int {
 	t.mu.Lock()
 	defer t.mu.Unlock()
+	if n := atomic.LoadInt64(&watch.Hangs); n >= watch.HangBudget {
+		// enough hung calls are on record (each is a violation by itself): stop here, at a scenario
+		// boundary, with everything written so far flushed
+		t.w.Flush()
+		Summary(M{"scenarios": t.Scen, "lines": t.Lines, "sigs": t.sigs, "stopped_after_hangs": n})
+		os.Exit(0)
+	}
 	t.sc++
 	t.Scen++
 	t.sigs[sig]++
